@@ -186,8 +186,23 @@ def rule_mask(r):
         r.check("%s >= %s" % (qvar, lo) in full and "%s <= %s" % (qvar, hi) in full, DM, "DataMixin._interpret_data",
                 "%s: q range %s <= q <= %s in index" % (kind, lo, hi), body[0].lineno, full[:120])
         nanv = "data.data" if kind == "Iqxy" else "data.y"
-        r.check("index &= ~np.isnan(%s)" % nanv in full, DM, "DataMixin._interpret_data",
-                "%s: NaN data excluded (index &= ~isnan)" % kind, body[0].lineno)
+        nan_st = [st for st in idx_defs if pf.unparse(st) == "index &= ~np.isnan(%s)" % nanv]
+        # the NaN filter may depend only on the data being present, not on the mask test
+        def guards(st):
+            out = []
+            node = dm.parents.get(st)
+            child = st
+            while node is not None and node is not fn:
+                if isinstance(node, ast.If):
+                    in_else = child in node.orelse
+                    out.append(("not " if in_else else "") + pf.unparse(node.test))
+                child, node = node, dm.parents.get(node)
+            return [g for g in out if "self.data_type" not in g]
+        okn = bool(nan_st) and set(guards(nan_st[0])) <= {"%s is not None" % nanv}
+        r.check(okn, DM, "DataMixin._interpret_data", "%s: NaN data excluded (index &= ~isnan)" % kind, body[0].lineno,
+                "applied whenever data is present" if okn else "NaN filter missing or conditional on %s" % (guards(nan_st[0]) if nan_st else "-"))
+        rng = [st for st in idx_defs if isinstance(st, ast.Assign)]
+        r.check(bool(rng) and not guards(rng[0]), DM, "DataMixin._interpret_data", "%s: q-range index built unconditionally" % kind, body[0].lineno)
         has_mask = "mask == 0" in full
         if kind == "Iq-oriented":
             if has_mask:
@@ -196,7 +211,9 @@ def rule_mask(r):
                 r.note(DM, "DataMixin._interpret_data", "%s: data.mask is not consulted" % kind, body[0].lineno,
                        "branch unreachable today (Slit2D construction raises, see known finding under R-C03-ctor-bind)")
         else:
-            r.check(has_mask, DM, "DataMixin._interpret_data", "%s: mask == 0 in index" % kind, body[0].lineno,
+            mst = [st for st in idx_defs if "mask == 0" in pf.unparse(st)]
+            okm = has_mask and set(guards(mst[0])) <= {"mask is not None"}
+            r.check(okm, DM, "DataMixin._interpret_data", "%s: mask == 0 in index" % kind, body[0].lineno,
                     "masked points (mask != 0) are excluded; polarity: 0 means keep")
         # Iq/dIq selected by the same index
         r.check("Iq = %s[index]" % nanv in txt, DM, "DataMixin._interpret_data", "%s: Iq = %s[index]" % (kind, nanv), body[0].lineno)
@@ -257,7 +274,7 @@ def rule_hidden(r):
 RULES = [
     ("R-C10-unused", 14, "unknown-name refusal post-dominates consumption in three interfaces", rule_unused),
     ("R-C10-suffix", 10, "dispersity suffix/default tables agree", rule_suffix),
-    ("R-C10-mask", 9, "data selection index: q range, mask polarity, NaN", rule_mask),
+    ("R-C10-mask", 11, "data selection index: q range, mask polarity, NaN", rule_mask),
     ("R-C10-hidden", 12, "hidden parameters and common evaluation path", rule_hidden),
 ]
 
